@@ -40,4 +40,6 @@ KindsCore == {"ok", "okr", "okpast", "part", "deny", "empty", "junk"}
 KindsTime == {"ok", "okpast", "okshort", "oknoiat", "okfut"}
 AllFix == {"requireToken", "keepRefresh"}
 NoFix == {}
+\* the tree since fix commit 99af9cc (finding X05-1 repaired, X05-2 open)
+TreeFix == {"requireToken"}
 =============================================================================
